@@ -160,3 +160,57 @@ def backslash_before_brace(replay):
     if hasattr(mod, 'recheck'):
         return mod.recheck(replay, fixed) is None
     return True
+
+
+def barry_future_import(replay):
+    """F21: the program imports barry_as_FLUFL from __future__ and without that feature the failure goes away"""
+    text = _text(replay)
+    if 'barry_as_FLUFL' not in text:
+        return False
+    fixed = text.replace('barry_as_FLUFL', 'division')
+    mod = importlib.import_module('harness.props.' + replay['property'])
+    if hasattr(mod, 'recheck'):
+        return mod.recheck(replay, fixed) is None
+    return True
+
+
+def nested_async_comprehension(replay):
+    """F23: some `async for` of a [..] / {..} comprehension sits inside another comprehension, and making the inner
+    comprehensions synchronous makes the failure go away"""
+    import parso
+    text = _text(replay)
+    try:
+        m = parso.load_grammar(version=replay.get('version', '3.10')).parse(text)
+    except Exception:
+        return False
+    hit = False
+    spans = []
+    leaf = m.get_first_leaf()
+    while leaf is not None:
+        if leaf.type == 'keyword' and leaf.value == 'async' and leaf.parent.type == 'comp_for':
+            cont = leaf.parent.parent
+            is_genexp = cont.type == 'argument' or cont.type == 'testlist_comp' and cont.parent.children[0] == '('
+            anc = cont.parent
+            inside = False
+            while anc is not None:
+                if anc.type in ('comp_for', 'sync_comp_for', 'testlist_comp', 'dictorsetmaker', 'argument') and anc is not cont and \
+                        any(getattr(c, 'type', '') in ('comp_for', 'sync_comp_for') for c in getattr(anc, 'children', [])):
+                    inside = True
+                if anc.type in ('funcdef', 'lambdef', 'classdef'):
+                    break
+                anc = anc.parent
+            if not is_genexp and inside:
+                hit = True
+                spans.append(leaf.start_pos)
+        leaf = leaf.get_next_leaf()
+    if not hit:
+        return False
+    lines = text.splitlines(True)
+    for (l, c) in sorted(spans, reverse=True):
+        ln = lines[l - 1]
+        lines[l - 1] = ln[:c] + ln[c + len('async '):] if ln[c:c + 6] == 'async ' else ln
+    fixed = ''.join(lines)
+    mod = importlib.import_module('harness.props.' + replay['property'])
+    if hasattr(mod, 'recheck'):
+        return mod.recheck(replay, fixed) is None
+    return True
